@@ -17,7 +17,7 @@ import copy
 import os
 
 PROPERTY = "C03"
-LEVEL = "exploration"
+LEVEL = "other"
 
 
 def _roundtrip(env_bytes, d, fmt, hierarchy, n):
@@ -106,12 +106,15 @@ KNOWN_LOSSY = [
     ("known-lossy/parameter-content-bytes-starting-with-a-cbor-uint", lambda: {"suit-parameter-content": "0505"}),
     ("known-lossy/parameter-content-single-byte-uint", lambda: {"suit-parameter-content": "05"}),
     ("known-lossy/parameter-content-bytes-starting-with-a-cbor-simple-value", lambda: {"suit-parameter-content": "f4aabb"}),
+    ("known-lossy/component-part-single-non-ascii-character", lambda: {"__component__": "\u00e9"}),
     ("known-lossy/ciphertext-bytes-starting-with-cbor-null", lambda: {"suit-parameter-encryption-info": {"CoseEncryptTagged": {
         "protected": {"suit-cose-algorithm-id": "cose-alg-aes-gcm-256"}, "unprotected": {}, "ciphertext": "f6aa", "recipients": []}}}),
 ]
 
 
 def _shown(params):
+    if "__component__" in params:
+        return params["__component__"]
     if "suit-parameter-content" in params:
         return params["suit-parameter-content"]
     return params["suit-parameter-encryption-info"]["CoseEncryptTagged"]["ciphertext"]
@@ -163,13 +166,17 @@ def bounded(ctx):
     for label, mk in KNOWN_LOSSY:
         dv = copy.deepcopy(base)
         dv["SUIT_Envelope_Tagged"]["suit-manifest"]["suit-validate"] = [{"suit-directive-override-parameters": mk()}]
+        if "__component__" in mk():
+            dv["SUIT_Envelope_Tagged"]["suit-manifest"]["suit-validate"] = [{"suit-condition-abort": []}]
+            dv["SUIT_Envelope_Tagged"]["suit-manifest"]["suit-common"]["suit-components"] = [[mk()["__component__"], 2]]
         env0 = _create(dv)
         case = {"name": label, "variant": "as-created", "format": "yaml", "parse_hierarchy": False, "seed": 0, "description": dv}
         B.case(label)
         try:
             env1 = _roundtrip(env0, d, "yaml", False, 9)
             import yaml
-            shown = _shown(yaml.safe_load(open(f"{d}/e9.yaml"))["SUIT_Envelope_Tagged"]["suit-manifest"]["suit-validate"][0]["suit-directive-override-parameters"])
+            y = yaml.safe_load(open(f"{d}/e9.yaml"))["SUIT_Envelope_Tagged"]["suit-manifest"]
+            shown = y["suit-common"]["suit-components"][0][0] if "__component__" in mk() else _shown(y["suit-validate"][0]["suit-directive-override-parameters"])
         except Exception as e:  # noqa: BLE001
             B.fail(label, case, f"{type(e).__name__}: {e}")
             continue
@@ -194,6 +201,70 @@ def replay_case(case):
         shutil.rmtree(d, ignore_errors=True)
 
 
-EXPLANATION = "bounded stand-in only: byte-level round trip through the CLI entry points over the generated description language"
-ASSUMPTIONS = ["no obligation of this property is discharged by the verifier (the mirror lemmas of the generic node types are not proved); everything reported here is bounded",
-               "YAML/JSON file forms live in PyYAML/json (third party): only exercised, not modelled"]
+EXPLANATION = ("P: symbolic parse-then-create round trip on description templates with symbolic leaves; B: byte-level round trip through the CLI entry points over the "
+               "generated description language")
+ASSUMPTIONS = ["P covers the listed template shapes for all leaf values under the input assumptions: text parts of component identifiers have at least two characters; byte strings "
+               "given in hex for parameter content / key ids / ciphertext start with a byte of CBOR major type 2..5 (outside the recorded known-lossy classes)",
+               "cbor2.loads: the kind of the decoded value is tied to the major type of the first byte (RFC 8949); law A1 for bytes produced by ENC",
+               "YAML/JSON file forms live in PyYAML/json (third party): only exercised (B), not modelled"]
+
+
+# ================================================================================================
+# P — symbolic round trip on description templates (all leaf values): the real parse (`from_suit_file`: from_cbor + to_obj)
+# is executed on the bytes the real create produced for a template with symbolic leaves; re-creating from the description it
+# returns (the real `prepare_suit_data`, executed by the same executor) must give the same encoding - compared structurally
+# through law A1/A3 (contracts/C02_wire.tree_goals).
+# ================================================================================================
+import z3  # noqa: E402
+from pyvc.contract import Contract, REGISTRY  # noqa: E402
+from pyvc.types import Computed, PathStr, ClsT  # noqa: E402
+from contracts import C02_wire as W  # noqa: E402
+
+FIO = "suit_generator/input_output.py"
+P_TEMPLATES = ["commands", "nesting"] + (["parameters-a", "parameters-b", "severed-members-text-payload", "auth-blocks-cwt", "encryption-info-recipients", "dependencies-nested-envelope"]
+                                         if os.environ.get("VERIF_TIER") == "thorough" else [])
+
+
+def _setup_created_file(name):
+    def setup(it, env):
+        """FS[file_name] := the bytes the real create produces for the template (origins recorded by the ENC stub)."""
+        from pyvc import symdesc as SD
+        leaves = {}
+        desc = SD.build(it, W.TEMPLATES[name](), leaves)
+        for lname, v in leaves.items():
+            # text parts of component identifiers: at least two characters here - a SINGLE character part is encoded as its raw
+            # bytes (SuitBchar) and is not recognised again unless it is one ASCII letter (known finding, own bounded obligation)
+            if lname.startswith(("comp_", "cid_text", "prefix")):
+                it.assume(z3.Length(v.e) >= 2)
+            # byte strings the unions would re-interpret (known finding): keep the first byte a CBOR major type 2..5 here
+            if lname in ("content", "kid_hex", "rk2", "cek", "cwid"):
+                b = it.stubs.UNHEX(v.e)
+                it.assume(z3.And(z3.Length(v.e) >= 2, b[0] >= 0x40, b[0] <= 0xBF))
+        fi = it.get_func(FIO, "InputOutputMixin.prepare_suit_data")
+        created = it.call_function(fi, [desc], {}, force_inline=True)
+        path = env.lookup("file_name")
+        pt = it.stubs.path_term(it, path)
+        it.assume(it.fs.exists(pt))
+        it.fs.write(pt, "b", created.e)
+        env.set("CREATED", created)
+    return setup
+
+
+def _recreate_equals(it, ctx):
+    if ctx.outcome != "return":
+        return None
+    fi = it.get_func(FIO, "InputOutputMixin.prepare_suit_data")
+    again = it.call_function(fi, [ctx.result], {}, force_inline=True)
+    goals = []
+    W.tree_goals(it, again, ctx.env.lookup("CREATED"), "recreated_envelope_equals_parsed_envelope", goals)
+    return [("recreated_envelope_equals_parsed_envelope", z3.And(*[g for _, g in goals]) if goals else z3.BoolVal(True))]
+
+
+c = Contract(FIO, "InputOutputMixin.from_suit_file", ["C03"])
+c.param("cls", ClsT("suit_generator/envelope.py", "SuitEnvelope"))
+c.param("file_name", PathStr())
+c.variants = [(n, {}) for n in P_TEMPLATES]
+c.setup = lambda it, env: _setup_created_file(it.variant_label)(it, env)
+c.check("roundtrip", _recreate_equals)
+c.raises("ValueError")
+c.max_paths = 400
